@@ -137,6 +137,13 @@ def generate(tape, tier="quick"):
     events = [["PUSH", 0]]
     t, npub = 0, 1
     last = [None] * n_cons
+    long = tape.chance(1, 150)
+    if long:
+        # a producer far ahead of its consumers: some three hundred publications wait in the slot at once
+        for _ in range(tape.rng_int(270, 330)):
+            t += tape.choice([1, 2, 3])
+            events.append(["PUSH", t])
+            npub += 1
     for _ in range(tape.weighted([(8, 3), (14, 4), (22, 2)])):
         if (tape.chance(1, 2) and npub < 12) or npub < 2:
             t += tape.choice([1, 2, 3])
@@ -145,7 +152,7 @@ def generate(tape, tier="quick"):
         else:
             ci = tape.draw(n_cons)
             lo = last[ci] if last[ci] is not None else 0
-            tt = min(t, lo + tape.choice([0, 1, 1, 2, 4]))
+            tt = min(t, lo + tape.choice([0, 1, 1, 2, 4] + ([40, 150] if long else [])))
             if last[ci] is None:
                 tt = 0 if tape.chance(1, 2) else tt
             if strictly and last[ci] is not None and tt <= last[ci]:
@@ -303,6 +310,9 @@ def limits_for(sc):
     s = payload_size(sc)
     n = sum(1 for e in sc["events"] if e[0] == "PUSH")
     lims = {0, max(0, s - 1), s}
+    if n > 60:
+        # long histories: everything spilled, almost everything spilled, half, nothing
+        return sorted(lims | {3 * s, (n // 2) * s, n * s + 1})
     for k in range(2, n + 1):
         lims |= {k * s - 1, k * s, k * s + 1}
     return sorted(lims)
@@ -444,7 +454,8 @@ def execute(sc):
     shutil.rmtree(root, ignore_errors=True)
     faults["F6_limits_enumerated"] = len(lims)
     return {"violations": viol, "digest": digest_of([sc, outcomes]), "nontrivial": spilled_any > 0 and loaded_any > 0,
-            "probes": {"saves": spilled_any, "loads": loaded_any, "limits": len(lims)}, "faults": faults,
+            "probes": {"saves": spilled_any, "loads": loaded_any, "limits": len(lims),
+                       "slots_holding_over_256_entries": int(sum(1 for e in sc["events"] if e[0] == "PUSH") > 256)}, "faults": faults,
             "sig": digest_of(outcomes), "cls": sc["slot"] + (":masked" if sc["masked"] else "") + (":grid" if sc["grid"] else ""),
             "sim_hours": len(lims) * max(e[1] for e in sc["events"] if e[0] == "PUSH"),
             "outcome": {"slot": sc["slot"], "limits": lims[:8], "per_limit(limit,saves,loads,err)": outcomes[:6]}}
